@@ -342,7 +342,7 @@ func mainPass(cfg out.Config, w *out.Writer) {
 	})
 
 	// ---- jittered strategies from many goroutines ----
-	childLines(cfg, w, "jitconc", 62, func(line []byte) bool {
+	childLines(cfg, w, "jitconc", 64, func(line []byte) bool {
 		var o jitOut
 		if json.Unmarshal(line, &o) != nil {
 			return false
@@ -351,7 +351,7 @@ func mainPass(cfg out.Config, w *out.Writer) {
 		w.Count("jitter-concurrent:" + ctor)
 		w.Add(emit.App("CJitConc", ctor, emit.Z(int64(o.Attempt)), emit.ZList(o.Obs)),
 			map[string]interface{}{"level": "jitter-concurrent", "strategy": o.Strategy, "attempt": o.Attempt, "observed": o.Obs}, "",
-			fmt.Sprintf("JC|%s|%d", ctor, o.Attempt), true)
+			fmt.Sprintf("JC|%s|%d|%d", ctor, o.Attempt, len(o.Obs)), true)
 		return true
 	})
 
